@@ -1,4 +1,5 @@
 import MudProof.Properties.C11
+import MudProof.StepThm
 open Mud.C11
 #print axioms hop_shift_target_zero
 #print axioms hop_shift_differences
@@ -26,3 +27,7 @@ open Mud.C11
 #print axioms no_collapse_of_nonpos
 #print axioms collapseStep_spec
 #print axioms collapse_gives_pure_active
+#print axioms Mud.StepThm.afHop_common
+#print axioms Mud.StepThm.afCollapse_spec
+#print axioms Mud.StepThm.afStep_rho
+#print axioms Mud.StepThm.pureState_valid
